@@ -1041,6 +1041,24 @@ def _known_causes(R, m, mx, st, dcf, dcs, dxf, dxs, cf):
                     d_muscle -= gv * np.outer(mom[i], mom[i])
         if np.any(d_skew != 0):
             cf.skew_delta = d_skew
+            # 12. raw (unclamped) ctrl in MJX's d(force)/d(velocity): a damper-like actuator driven outside its ctrlrange becomes
+            # anti-damping, M - h*qDeriv loses positive definiteness and jax cho_factor returns NaN (C's LDL stays finite)
+            if not np.all(np.isfinite(np.asarray(dxs.qvel))) and np.all(np.isfinite(np.asarray(dxf.qacc))):
+                try:
+                    qd = np.asarray(R.src["derivative"].deriv_smooth_vel(mx, dxf), float)
+                    Mx = np.asarray(_fs(R)[1](mx, dxf), float)
+                    eigmin = float(np.linalg.eigvalsh(Mx - float(m.opt.timestep) * 0.5 * (qd + qd.T)).min())
+                except Exception:
+                    eigmin = None
+                if eigmin is not None and eigmin <= 0:
+                    out.append({
+                        "sig": "implicitfast-step-nan-when-unclamped-ctrl-makes-M-minus-h-qDeriv-indefinite",
+                        "scope": _scope(step=["qpos", "qvel"]),
+                        # root: MJX's own matrix (its M and its deriv_smooth_vel at this state) is not positive definite, MJX's
+                        # next state is non-finite and the C engine's is finite
+                        "root": lambda name, det: (not np.all(np.isfinite(np.asarray(det["mjx"], float))))
+                        and bool(np.all(np.isfinite(np.asarray(det["c"], float)))),
+                    })
         if np.any(d_muscle != 0):
             out.append({
                 "sig": "implicitfast-derivative-omits-muscle-gain-velocity-term",
